@@ -44,10 +44,11 @@ def _entry_rules(rep: Report, cls, cb_attrs: dict, flag: str = "self.is_stopped"
                 n = s.node
                 if isinstance(n, ast.Call) and isinstance(n.func, ast.Attribute) and dotted(n.func.value) == "self" and n.func.attr not in deliver:
                     hlp = cls.child(n.func.attr)
-                    idx = next((i for i, a in enumerate(n.args) if isinstance(a, ast.Attribute) and dotted(a.value) == "self" and a.attr in deliver), None)
+                    from ..astutil import handed_callback
+                    idx = next((i for i, a in enumerate(n.args) if handed_callback(a, deliver)), None)
                     if hlp is not None and hlp.is_func and idx is not None and len(hlp.params) > idx + 1 and not s.ctx.guards:
                         pname = hlp.params[idx + 1]
-                        found += [(x, n.args[idx].attr, hlp) for x in sites(hlp) if isinstance(x.node, ast.Call) and isinstance(x.node.func, ast.Name)
+                        found += [(x, handed_callback(n.args[idx], deliver), hlp) for x in sites(hlp) if isinstance(x.node, ast.Call) and isinstance(x.node.func, ast.Name)
                                   and x.node.func.id == pname]
         for s, attr_, own in found:
             n = s.node
